@@ -13,7 +13,7 @@ passed, failed = set(), set()
 for pkg, names in sorted(pk.items()):
     rel = "./" + pkg.split("github.com/vmware/go-ipfix/")[1]
     cmd = ["go", "test"] + tags + ["-vet=off", "-count=1", "-json", "-timeout", "10m", "-run", "^(" + "|".join(sorted(names)) + ")$", rel]
-    r = subprocess.run(cmd, cwd="/repo", env=env, stdout=subprocess.PIPE, stderr=subprocess.STDOUT, text=True)
+    r = subprocess.run(cmd, cwd=os.environ.get("REPO_DIR", "/repo"), env=env, stdout=subprocess.PIPE, stderr=subprocess.STDOUT, text=True)
     for ln in r.stdout.splitlines():
         try:
             e = json.loads(ln)
